@@ -264,6 +264,31 @@ func check(t tcase) *mc.Failure {
 	})
 }
 
+// lcase describes a long pair (mdiffh.LongPair): line numbers of two to four
+// digits, many hunks, hunks that merge or stay apart depending on the context.
+type lcase struct {
+	N    int  `json:"lines"`
+	Gap  int  `json:"gap"`
+	Ctx  int  `json:"context"`
+	FI   int  `json:"fileinfo"`
+	Swap bool `json:"swap,omitempty"`
+}
+
+func checkLongCase(l lcase) *mc.Failure {
+	al, L, R := mdiffh.LongPair(l.N, l.Gap)
+	if l.Swap {
+		L, R = R, L
+	}
+	f := check(tcase{al, L, R, l.Ctx, l.FI})
+	if f != nil {
+		if len(f.Msg) > 900 {
+			f.Msg = f.Msg[:900] + "..."
+		}
+		f.Msg = fmt.Sprintf("long pair (%d lines, %d unchanged lines between edits, context %d, swap=%v): %s", l.N, l.Gap, l.Ctx, l.Swap, f.Msg)
+	}
+	return f
+}
+
 var hostile = []string{"", " a", "-x", "+x", "--- q", "+++ q", "---", "< q", "> q", "@@ x", "@@ -1 +1 @@", "diff x", "\\ no", "-- x", "++ x", "*** 1 ****", "--- 1 ----", "***************", "1a2", "! x"}
 
 func alphabets(r *mc.Run) [][]string {
@@ -404,6 +429,41 @@ func main() {
 				return mc.Failf(-1, "bad trace: %v", err)
 			}
 			return check(t)
+		},
+	}, mc.Harness{
+		Name: "formats-long",
+		Explore: func(r *mc.Run) {
+			var cases []lcase
+			for _, n := range mc.Pick(r, []int{12, 40, 130, 1100}, []int{12, 40, 130, 300, 1100, 2500, 10100}) {
+				for gap := 0; gap <= 11; gap++ {
+					for _, ctx := range []int{0, 1, 2, 3, 5, 8} {
+						fi := (n + gap + ctx) % 3
+						cases = append(cases, lcase{n, gap, ctx, fi, false}, lcase{n, gap, ctx, (fi + 1) % 3, true})
+					}
+				}
+			}
+			mc.ParallelFor(len(cases), r.Workers, func(i int) {
+				if r.Expired() {
+					return
+				}
+				if f := checkLongCase(cases[i]); f != nil {
+					r.Violation(mc.Case{Harness: "formats-long", Trace: mc.J(cases[i]), Msg: f.Msg})
+				}
+			})
+			if r.Expired() {
+				r.NotExhaustive("tier budget reached")
+			}
+			n := int64(len(cases))
+			r.AddEval(n, n, n, n)
+			r.Rule("files of 12...1100/10100 lines with an edit every gap+1 lines (gap 0...11), context 0...8, three header variants, both directions: line numbers of up to five digits, dozens to thousands of hunks; the same meaning and round-trip oracles as the short cases")
+			r.Sample(lcase{1100, 4, 3, 1, false})
+		},
+		Replay: func(c mc.Case) *mc.Failure {
+			var l lcase
+			if err := mc.Unmarshal(c.Trace, &l); err != nil {
+				return mc.Failf(-1, "bad trace: %v", err)
+			}
+			return checkLongCase(l)
 		},
 	})
 }
